@@ -391,6 +391,39 @@ func genC13(ctx *Ctx) {
 			e.run([]step{{frame: px.FrameBytes(inRange, 0, 1, 1, encStringMap("COMPRESSION", "bogus"))}, {frame: buf.Bytes(), logical: logical, token: tok + "c"}}, "compressed-after-rejected-startup")
 			ctx.Count("compressed-frames")
 		}
+		// E. the gate judges every frame, not only the first one of a connection: frames of every version after a
+		// completed handshake (STARTUP, or STARTUP and REGISTER, in an accepted version), then an in-range request
+		// that shows the connection is still usable
+		var accepted []byte
+		for _, sv := range []byte{3, 4, 5, 65, 66} {
+			if primitive.ProtocolVersion(sv) <= maxv || (primitive.ProtocolVersion(sv).IsDse() && maxv.IsDse() && primitive.ProtocolVersion(sv) <= maxv) {
+				if !(primitive.ProtocolVersion(sv).IsDse() && !maxv.IsDse()) {
+					accepted = append(accepted, sv)
+				}
+			}
+		}
+		for _, sv := range accepted {
+			for _, vd := range []byte{1, 2, 3, 4, 5, 6, 64, 65, 66, 67, 0x7f} {
+				for _, op := range []byte{0x05, 0x07, 0x09, 0x0a, 0x0b, 0x0d, 0x01} {
+					if !ctx.Thorough && r.Intn(3) != 0 && primitive.ProtocolVersion(vd) <= maxv && vd >= 3 {
+						continue // in-range combinations are section A's subject; keep a sample
+					}
+					tokn++
+					tok := fmt.Sprintf("g%dm%de%d", ctx.Seed%1000, maxv, tokn)
+					st := []step{{frame: px.FrameBytes(sv, 0, 1, 1, encStringMap("CQL_VERSION", "3.0.0"))}}
+					if r.Intn(2) == 0 {
+						st = append(st, step{frame: px.FrameBytes(sv, 0, 2, 11, encStringList("SCHEMA_CHANGE"))})
+					}
+					st = append(st, step{frame: frameBytesAny(vd, 0, 3, op, e.bodyFor(vd, op, tok)), token: tok})
+					if primitive.ProtocolVersion(vd).IsSupported() {
+						// unknown versions close the connection; after a known one the connection must still serve
+						st = append(st, step{frame: px.FrameBytes(sv, 0, 4, 7, e.bodyFor(sv, 7, tok+"u")), token: tok + "u"})
+					}
+					e.run(st, "version-gate-after-handshake")
+					ctx.Count(fmt.Sprintf("version-gate-after-handshake:max%d", maxv))
+				}
+			}
+		}
 		env.Close()
 	}
 	_ = hv.I
